@@ -167,6 +167,8 @@ pub enum Action {
 	/// bit of the onion's hop data, 1: a bit of its HMAC, 2: its ephemeral key, 3: a bit of the
 	/// payment hash) and delivered
 	Corrupt { from: usize, to: usize, kind: u8, bit: u32 },
+	/// C07: the previous, not yet revoked holder commitment of `n` on `chan` gets mined
+	ClosePrev { n: usize, chan: usize },
 	/// C08: node `n` loses all its connections and cannot reconnect until `Heal`
 	Partition { n: usize },
 	Heal { n: usize },
@@ -216,6 +218,7 @@ impl Action {
 			Action::Liquidate => "Liquidate",
 			Action::Cheat { .. } => "Cheat",
 			Action::Tamper { .. } => "Tamper",
+			Action::ClosePrev { .. } => "ClosePrev",
 			Action::Corrupt { .. } => "Corrupt",
 			Action::Partition { .. } => "Partition",
 			Action::Heal { .. } => "Heal",
@@ -244,6 +247,7 @@ impl Action {
 			| Action::Restart { n, .. }
 			| Action::Sweep { n }
 			| Action::Cheat { n, .. }
+			| Action::ClosePrev { n, .. }
 			| Action::Partition { n }
 			| Action::Heal { n }
 			| Action::Gone { n }
@@ -2560,6 +2564,7 @@ impl World {
 				true
 			},
 			Action::Tamper { from, to, kind } => self.do_tamper(*from, *to, *kind),
+			Action::ClosePrev { n, chan } => self.do_close_prev(*n, *chan),
 			Action::Corrupt { from, to, kind, bit } => self.do_corrupt(*from, *to, *kind, *bit),
 			Action::Partition { n } => self.do_partition(*n),
 			Action::Heal { n } => self.do_heal(*n),
@@ -2574,7 +2579,7 @@ impl World {
 				reorgs: reorgs.clone(),
 			}),
 		};
-		if self.cfg.profile == "justice" && !self.dead && self.cheat.is_none() {
+		if matches!(self.cfg.profile.as_str(), "justice" | "onchain") && !self.dead && self.cheat.is_none() && !self.in_settle {
 			self.archive_commitments();
 		}
 		// an action during which the run died (library panic) is part of the trace
